@@ -6,14 +6,14 @@ set -u
 SEED="$1"; WT="${2:-/tmp/wt/confirm}"
 if [ ! -d "$WT" ]; then git -C /repo worktree add -q --detach "$WT" HEAD || exit 2; fi
 git -C "$WT" checkout -q -- . ; git -C "$WT" checkout -q --detach "$(git -C /repo rev-parse HEAD)" || exit 2
-build() { (cd "$WT/python" && /venv/bin/python setup.py build_ext --inplace --force >/tmp/confirm_build.log 2>&1) || { echo "BUILD-FAILED"; tail -5 /tmp/confirm_build.log; return 1; }; }
+build() { (cd "$WT/python" && /venv/bin/python setup.py build_ext --inplace --force >$WT/.confirm_build.log 2>&1) || { echo "BUILD-FAILED"; tail -5 $WT/.confirm_build.log; return 1; }; }
 needs_c=0; grep -q '^+++ b/\(c/\|python/_tskitmodule.c\|python/lwt_interface/\)' "$SEED/patch.diff" && needs_c=1
 if [ ! -f "$WT/python/_tskit.cpython-312-x86_64-linux-gnu.so" ] || [ -f "$WT/.dirty_build" ]; then build || exit 2; rm -f "$WT/.dirty_build"; fi
-(cd "$WT/python" && timeout 600 /venv/bin/python "$SEED/demo.py" >/tmp/confirm_clean.log 2>&1); clean=$?
+(cd "$WT/python" && timeout 600 /venv/bin/python "$SEED/demo.py" >$WT/.confirm_clean.log 2>&1); clean=$?
 git -C "$WT" apply "$SEED/patch.diff" || { echo "NOT-CONFIRMED patch does not apply to HEAD"; exit 1; }
 if [ $needs_c = 1 ]; then touch "$WT/.dirty_build"; build || { git -C "$WT" checkout -q -- .; exit 1; }; fi
-(cd "$WT/python" && timeout 600 /venv/bin/python "$SEED/demo.py" >/tmp/confirm_mut.log 2>&1); mut=$?
+(cd "$WT/python" && timeout 600 /venv/bin/python "$SEED/demo.py" >$WT/.confirm_mut.log 2>&1); mut=$?
 git -C "$WT" checkout -q -- .
 if [ $needs_c = 1 ]; then build; rm -f "$WT/.dirty_build"; fi
 if [ $clean = 0 ] && [ $mut != 0 ]; then echo "CONFIRMED clean=$clean mutated=$mut"; exit 0; fi
-echo "NOT-CONFIRMED clean=$clean mutated=$mut"; tail -3 /tmp/confirm_clean.log; tail -3 /tmp/confirm_mut.log; exit 1
+echo "NOT-CONFIRMED clean=$clean mutated=$mut"; tail -3 $WT/.confirm_clean.log; tail -3 $WT/.confirm_mut.log; exit 1
